@@ -3,6 +3,7 @@ TestQueue: its main line runs in a cooperative thread, its execnet receiver in a
 Used by drive_worker.py (worker-level correspondence) and sim.py (whole sessions)."""
 from __future__ import annotations
 
+import itertools
 import collections
 import types
 
@@ -12,6 +13,8 @@ OUTCOMES = ["passed", "failed", "skipped", "garbled"]    # garbled: the controll
 
 _BY_COOP = {}
 
+
+_PROC = itertools.count(1000)   # the text of a collection error differs from worker to worker (pids, addresses, worker ids in reprs)
 
 class TimeShim:
     """replaces the `time` module inside xdist.remote: run_one_test's two perf_counter()
@@ -162,7 +165,7 @@ class WorkerSim:
             # a passed report first: must not be sent
             i.pytest_collectreport(types.SimpleNamespace(passed=True, failed=False, key=-1, longrepr=None))
             i.pytest_collectreport(types.SimpleNamespace(passed=False, failed=bool(failed), skipped=not failed, key=key,
-                                                         longrepr="collect-error-%d" % key, nodeid="coll%d" % key,
+                                                         longrepr="collect-error-%d in process %d" % (key, next(_PROC)), nodeid="coll%d" % key,
                                                          outcome="failed" if failed else "skipped"))
         i.pytest_collection_finish(self.session)
         # what _pytest.main.wrap_session does with the outcome of the loop
